@@ -12,7 +12,8 @@ CONSTANTS P0Choices, P1Choices, TsPatterns, StatModes,   \* sub-domains of the l
           TimeChoices, ModeChoices,                      \* sub-domains of the query menus
           DevPruneOnBase,     \* deviation: offset pruning treats the segment's base as its LAST offset
           DevTimeMinOnly,     \* deviation: time pruning compares the window with MinTimestamp only
-          DevLimitPerSegment  \* deviation: LIMIT counted per segment instead of per query
+          DevLimitPerSegment, \* deviation: LIMIT counted per segment instead of per query
+          DevMaxOffsetAcrossPartitions  \* deviation (lister): a partition's newest segment gets MaxOffset from the NEXT partition's oldest base
 
 Parts == {-1, 0, 1}
 OMins == {-1, 1, 3}
@@ -23,7 +24,7 @@ P0Menu == << <<Seg(0, {0, 1, 2})>>,
              <<Seg(0, {0}), Seg(1, {1, 2}), Seg(4, {4})>>,
              <<Seg(1, {1, 2}), Seg(3, {3})>>,
              <<Seg(0, {0, 2}), Seg(4, {5})>> >>
-P1Menu == << <<>>, <<Seg(0, {0, 1})>>, <<Seg(0, {0}), Seg(1, {1, 3})>> >>
+P1Menu == << <<>>, <<Seg(0, {0, 1})>>, <<Seg(0, {0}), Seg(1, {1, 3})>>, <<Seg(2, {2, 3})>> >>
 Ts(pat, p, o) == CASE pat = "inc" -> o + 1 [] pat = "dec" -> 6 - o [] OTHER -> ((o * 3 + p) % 5) + 1
 TimeMenu == << [tmin |-> -1, tmax |-> -1, form |-> "none"], [tmin |-> 3, tmax |-> -1, form |-> "ts"],
                [tmin |-> -1, tmax |-> 3, form |-> "ts"], [tmin |-> 2, tmax |-> 4, form |-> "ts"],
@@ -42,14 +43,19 @@ PartSegs(p, menu, pat, sm) ==
      LET s == menu[i]
          tss == {Ts(pat, p, o) : o \in s.offs}
          last == i = Len(menu)
-     IN [p |-> p, base |-> s.base, key |-> i + 10 * p,
+     IN [p |-> p, base |-> s.base, key |-> i + 10 * p, sm |-> sm,
          rows |-> [j \in 1..Cardinality(s.offs) |-> <<SortedSeq(s.offs)[j], Ts(pat, p, SortedSeq(s.offs)[j])>>],
          minO |-> IF sm \in {"base", "tix", "minonly"} THEN s.base ELSE -1,
          maxO |-> IF sm \in {"base", "tix", "maxonly"} /\ ~last THEN menu[i + 1].base - 1
                   ELSE IF sm \in {"tix", "maxonly"} /\ last THEN MaxS(s.offs) ELSE -1,
          minT |-> IF sm \in {"tix", "minonly"} THEN MinS(tss) ELSE -1,
          maxT |-> IF sm \in {"tix", "maxonly"} THEN MaxS(tss) ELSE -1]]
-Layout(l) == PartSegs(0, P0Menu[l.p0], l.pat, l.sm) \o PartSegs(1, P1Menu[l.p1], l.pat, l.sm)
+Layout(l) ==
+  LET a == PartSegs(0, P0Menu[l.p0], l.pat, l.sm)
+      b == PartSegs(1, P1Menu[l.p1], l.pat, l.sm)
+      leak == DevMaxOffsetAcrossPartitions /\ l.sm \in {"base", "tix", "maxonly"} /\ Len(b) > 0 /\ b[1].base > 0
+      a2 == IF leak THEN [a EXCEPT ![Len(a)].maxO = b[1].base - 1] ELSE a
+  IN a2 \o b
 
 VARIABLES phase, segs, qry
 vars == <<phase, segs, qry>>
